@@ -12,6 +12,8 @@ Logical spec of ONE class-typed position (JSON):
      "k": {key: value}}                         dict_kwargs
 
 Container positions: {"list": [spec, ...]}, {"append": spec}, {"last": spec}, {"dict": {key: spec}}, {"key": [k, spec]}.
+A whole list / dict given after an earlier one replaces it; its elements see the previous element at the same index
+(list of unchanged length) / under the same key as their previous state, so "no class named" means that class.
 
 State of a position (result of applying sources in order):
 
@@ -58,6 +60,8 @@ TOKENS = {
     "HoldDict": FAM + ".HoldDict",
     "HoldDeep": FAM + ".HoldDeep",
     "HoldSub": FAM + ".HoldSub",
+    "HoldPair": FAM + ".HoldPair",
+    "HoldPairR": FAM + ".HoldPairR",
     # callables
     "make_sub": FAM + ".make_sub",
     "make_base_str": FAM + ".make_base_str",
@@ -87,7 +91,7 @@ TOKENS = {
 CLASS_TOKENS = [
     "Base", "SubAdd", "SubOver", "SubReq", "SubSub", "Twin", "Twin2", "Far", "_Private", "Unrelated", "Other",
     "OtherSub", "Abs", "AbsImpl", "AbsStill", "Kw", "KwSub", "HoldOne", "HoldOpt", "HoldUnion", "HoldList",
-    "HoldDict", "HoldDeep", "HoldSub",
+    "HoldDict", "HoldDeep", "HoldSub", "HoldPair", "HoldPairR",
 ]  # fmt: skip
 FUNC_TOKENS = ["make_sub", "make_base_str", "make_unrelated", "make_int", "make_untyped"]
 
@@ -461,7 +465,14 @@ def assign(typ, prev, spec, trace, implicit=None):
         return assign_class(payload[0], payload[1], prev, spec, trace, implicit)
     if kind == "list":
         if "list" in spec:
-            return [assign(payload, None, s, trace) for s in spec["list"]]
+            # a whole list given again: elements correspond by index when the length is unchanged (an element
+            # without class_path then means the class configured at that index); otherwise every element is new
+            same = isinstance(prev, list) and len(prev) == len(spec["list"])
+            if isinstance(prev, list):
+                trace["regiven"] = trace.get("regiven", 0) + 1
+                if not same and any(isinstance(s, dict) and s.get("c") is None for s in spec["list"]):
+                    trace["classless_in_resized"] = True
+            return [assign(payload, prev[i] if same else None, s, trace) for i, s in enumerate(spec["list"])]
         if "append" in spec:
             return (list(prev) if isinstance(prev, list) else []) + [assign(payload, None, spec["append"], trace)]
         if "last" in spec:
@@ -473,7 +484,14 @@ def assign(typ, prev, spec, trace, implicit=None):
         raise AssertionError(spec)
     if kind == "dict":
         if "dict" in spec:
-            return {k: assign(payload, None, s, trace) for k, s in spec["dict"].items()}
+            # a whole dict given again replaces the previous one; entries correspond by key (an entry without
+            # class_path means the class configured under that key), keys not given again are gone
+            old = prev if isinstance(prev, dict) else {}
+            if isinstance(prev, dict):
+                trace["regiven"] = trace.get("regiven", 0) + 1
+                if not prev and any(isinstance(s, dict) and s.get("c") is None for s in spec["dict"].values()):
+                    trace["classless_in_resized"] = True
+            return {k: assign(payload, old.get(k), s, trace) for k, s in spec["dict"].items()}
         if "key" in spec:
             cur = dict(prev) if isinstance(prev, dict) else {}
             k, s = spec["key"]
